@@ -102,7 +102,11 @@ func (m *searchModel) hook(in *absint.Interp, st *absint.State, site ssa.CallIns
 	m.n++
 	id := m.n
 	ev := func(kind string, a ...absint.Value) {
-		st.Effects = append(st.Effects, absint.Effect{Kind: kind, Args: a, Pos: site.Pos()})
+		e := absint.Effect{Kind: kind, Args: a, Pos: site.Pos()}
+		if len(st.Stack) > 0 {
+			e.Root = st.Stack[0]
+		}
+		st.Effects = append(st.Effects, e)
 	}
 	boolT := types.Typ[types.Bool]
 	// interface calls by method name
